@@ -1,8 +1,10 @@
 """C06 — inv / solve return the solution of the linear system on every dispatch path.
 
 Three-way comparison on streams of invertible operator trees:
-  real  = cola.linalg.inv(A, alg): kind tree, dtype, to_dense, B @ b, b @ B, B.T.to_dense(), solve(A, b, alg)
-  code  = Lean `Inv.invRule` (DriverC06.lean; exact Gaussian-rational factorisations / solver instances)
+  real  = cola.linalg.inv(A, alg): kind tree, dtype, to_dense, B @ b, b @ B, B.T.to_dense(), solve(A, b, alg), and the solver
+          objects inside the result with their options (tol, max_iters)
+  code  = Lean `Inv.invRule` (DriverC06.lean; exact Gaussian-rational factorisations / solver instances); the algorithm object of
+          the model carries the caller's keyword arguments (`opts`), `solvers` = `InvOp.solvers` (theorem C06_solver_options)
   spec  = the exact inverse of the represented matrix (Gauss-Jordan over Q[i], verified by multiplication)
 Exact comparison where the selected path is division-only on dyadic data; relative tolerance where
 LAPACK (1e-9 double / 2e-3 single) or CG / GMRES (1e-6 double / 5e-3 single) is involved.
@@ -13,6 +15,7 @@ A case the Lean model cannot evaluate (driver error / timeout / not an invertibl
 the evidence as not compared, with the reason; a driver that does not run gives a verdict (VIOLATION ... no-failing-input-found
 unless the streams that do not need it found a failing input), never a crash."""
 import collections
+from fractions import Fraction
 import json
 import os
 import random
@@ -56,6 +59,26 @@ EITHER = {"gmres-krylov-breakdown"}
 
 ALGS = ["omitted", "Auto", "LU", "Cholesky", "CG", "GMRES", "Other"]
 GMRES_ITERS = 40
+# keyword arguments of the algorithm objects of the exact stream (a case may carry its own "opts")
+ALG_OPTS = {"CG": {"tol": 1e-10}, "GMRES": {"tol": 1e-10, "max_iters": GMRES_ITERS}}
+
+
+def case_opts(case):
+    """the keyword arguments the algorithm object of a case is built with"""
+    return case["opts"] if "opts" in case else dict(ALG_OPTS.get(case.get("alg"), {}))
+
+
+def opts_json(opts):
+    """driver form: tol as the exact rational value of the double"""
+    out = {}
+    if opts.get("tol") is not None:
+        num, den = float(opts["tol"]).as_integer_ratio()
+        out["tol"] = {"q": [num, den]}
+    if opts.get("max_iters") is not None:
+        out["max_iters"] = int(opts["max_iters"])
+    return out
+
+
 MAX_REPORTED = 4     # violations written out (with shrinking) per run; further ones are only counted
 SINGLE = ("f32", "c64")
 
@@ -322,7 +345,14 @@ class InvGen:
         if alg in ("CG", "GMRES"):
             # the requested tolerance (1e-10) is attainable in double precision only
             e = to_double(e)
-        return {"call": "inv", "op": e, "alg": alg, "x": X, "xl": XL, "xdt": dt, "vec": vec, "hows": hows}
+        # the keyword arguments the algorithm object is built with; they travel to the driver, whose model threads them
+        # to the solver objects it builds (theorem C06_solver_options), and are compared with the real solver objects
+        opts = dict(ALG_OPTS.get(alg, {}))
+        if alg == "CG" and rng.random() < 0.5:
+            opts["max_iters"] = rng.choice([200, 500, 2000])     # >> n <= 8: never the binding limit
+        if alg == "Auto" and rng.random() < 0.5:
+            opts = {"tol": rng.choice([1e-3, 1e-9]), "max_iters": rng.choice([7, 300])}
+        return {"call": "inv", "op": e, "alg": alg, "opts": opts, "x": X, "xl": XL, "xdt": dt, "vec": vec, "hows": hows}
 
 
 def to_double(e):
@@ -340,21 +370,24 @@ class OtherAlg:
     pass
 
 
-def make_alg(name):
+def make_alg(name, opts=None):
     from cola.linalg import Auto, LU, Cholesky, CG, GMRES
     from cola.linalg.algorithm_base import Algorithm
+    if opts is None:
+        opts = ALG_OPTS.get(name, {})
+    kw = {k: v for k, v in opts.items() if v is not None}
     if name == "omitted":
         return None
     if name == "Auto":
-        return Auto()
+        return Auto(**kw)
     if name == "LU":
         return LU()
     if name == "Cholesky":
         return Cholesky()
     if name == "CG":
-        return CG(tol=1e-10)
+        return CG(**kw)
     if name == "GMRES":
-        return GMRES(tol=1e-10, max_iters=GMRES_ITERS)
+        return GMRES(**kw)
     if name == "Other":
         return type("PlainAlgorithm", (Algorithm, ), {})()
     raise ValueError(name)
@@ -379,6 +412,32 @@ def rskel(op):
     return [k, treecheck.ann_list(op)] + [rskel(x) for x in kids]
 
 
+def rsolvers(op):
+    """the solver objects inside a real result, left to right: [class name, tol, max_iters]"""
+    name = type(op).__name__.split("[")[0]
+    if name == "IterativeOperatorWInfo":
+        return [[type(op.alg).__name__, getattr(op.alg, "tol", None), getattr(op.alg, "max_iters", None)]]
+    if hasattr(op, "Ms") and name in ("Product", "Kronecker", "BlockDiag"):
+        return [s for M in op.Ms for s in rsolvers(M)]
+    return []
+
+
+def solvers_differ(real, code):
+    """real solver objects vs the model's (`InvOp.solvers`, options as exact rationals): None if equal"""
+    if len(real) != len(code):
+        return f"{len(real)} solver objects, the model builds {len(code)}"
+    for i, (r, c) in enumerate(zip(real, code)):
+        want_tol = None if c[1] is None else float(Fraction(str(c[1])))
+        if r[0] != c[0] or r[1] != want_tol or r[2] != c[2]:
+            return (f"solver #{i}: real {r[0]}(tol={r[1]!r}, max_iters={r[2]!r}), the model (= the caller's options, "
+                    f"C06_solver_options) {c[0]}(tol={want_tol!r}, max_iters={c[2]!r})")
+    return None
+
+
+def solver_check(B, code):
+    return solvers_differ(rsolvers(B), code.get("solvers", []))
+
+
 def err_class(ex):
     n = type(ex).__name__
     if n == "AssertionError":
@@ -400,12 +459,13 @@ def observe_real(case, direct):
     import cola
     try:
         A = build.Builder().build(case["op"])
-        alg = make_alg(case["alg"])
+        alg = make_alg(case["alg"], case_opts(case))
         B = cola.linalg.inv(A) if alg is None else cola.linalg.inv(A, alg)
     except Exception as ex:  # noqa: BLE001
         return {"err": err_class(ex), "msg": str(ex)[:200]}
     n = int(A.shape[0])
-    out = {"shape": [int(B.shape[0]), int(B.shape[1])], "dtype": build.dtname(B.dtype), "skel": rskel(B)}
+    out = {"shape": [int(B.shape[0]), int(B.shape[1])], "dtype": build.dtname(B.dtype), "skel": rskel(B),
+           "solvers": rsolvers(B)}
     x = build.arr(case["x"], case["xdt"], (n, len(case["x"][0])))
     b = x[:, 0] if case["vec"] else x
     xl = build.arr(case["xl"], case["xdt"], (len(case["xl"]), n))
@@ -475,6 +535,12 @@ def classify(case, ans, real):
         return "violation", f"inv raised {real['err']}: {real.get('msg')}"
     code = dict(code)
     code["lapack"] = ans["lapack"]
+    # the driver runs the exact LU / Cholesky for which Inv.luContract_gExt / cholContract_gExt PROVE the contracts under decidable
+    # side conditions it evaluates at every LAPACK node (`contracts_ok`); a second, independent exact implementation must agree
+    if not code.get("lapack_agree", True):
+        return "driver-error", "the two exact LU / Cholesky implementations of the driver disagree at a LAPACK node"
+    if ans["lapack"] and code.get("contracts_ok") is not None and bool(code["contracts_ok"]) != bool(code["inv_ok"]):
+        return "driver-error", "contracts_ok (hypotheses of luContract_gExt / cholContract_gExt) and inv_ok (the result is the inverse) differ"
     if not code["inv_ok"]:
         # the exact Cholesky instance of the driver has no rational factor (Gram matrix of a non-triangular
         # unimodular matrix): its contract L L^H = A is not instantiated, the model's VALUES are unavailable;
@@ -493,6 +559,9 @@ def classify(case, ans, real):
         want = [code["rows"], code["cols"]] if key == "shape" else code[key]
         if real[key] != want:
             problems.append((key, "real-vs-code"))
+    sd = solvers_differ(real.get("solvers", []), code.get("solvers", []))
+    if sd is not None:
+        return "violation", "the solver objects inside inv(A, alg) do not carry the caller's options: " + sd
     # values against the exact inverse (the code model's values equal it exactly whenever inv_ok)
     unavailable = code.get("values_unavailable", False)
     if not unavailable:
@@ -576,7 +645,15 @@ def case_x(case):
 
 
 def strip(case):
-    return {k: case[k] for k in ("call", "op", "alg", "x", "xl", "xdt", "vec", "hows") if k in case}
+    return {k: case[k] for k in ("call", "op", "alg", "opts", "x", "xl", "xdt", "vec", "hows") if k in case}
+
+
+def to_driver(case, i):
+    """the case as the driver reads it: options as exact rationals"""
+    d = {k: v for k, v in strip(case).items() if k != "hows"}
+    d["opts"] = opts_json(case_opts(case))
+    d["id"] = i
+    return d
 
 
 def subtrees(e):
@@ -647,11 +724,12 @@ def float_stream(ctx, stats, hist, replay_case=None):
     else:
         ncases = 10 * len(F.PATHS) if not ctx.thorough else 150 * len(F.PATHS)
         cases = [G.case(F.PATHS[i % len(F.PATHS)], quick=not ctx.thorough) for i in range(ncases)]
-    ans = run_driver_safe([{"id": i, "call": "skel", "alg": c["alg"], "op": F.expr(c["tree"])} for i, c in enumerate(cases)])
+    ans = run_driver_safe([{"id": i, "call": "skel", "alg": c["alg"], "opts": opts_json(F.alg_opts(c["alg"], c["gmres_iters"])),
+                            "op": F.expr(c["tree"])} for i, c in enumerate(cases)])
     worst, kappas, sizes, not_compared, samples = collections.defaultdict(float), [], [], collections.Counter(), []
     for i, c in enumerate(cases):
         try:
-            st, det, meas = F.run_case(c, ans.get(i), rskel, err_class)
+            st, det, meas = F.run_case(c, ans.get(i), rskel, err_class, solver_check)
         except Exception as ex:  # noqa: BLE001
             st, det, meas = "not-compared", f"harness error {type(ex).__name__}: {str(ex)[:200]}", {}
         stats["float-evaluations"] += 1
@@ -705,12 +783,15 @@ def large_side_solves(ctx, stats):
         t = G.generic_leaf(1000, kappa, False, psd, wrap=None, c=False)
         cases.append({"path": "auto-small-side", "tree": t, "alg": rng.choice(["omitted", "Auto"]), "kappa_target": kappa, "single": False, "bdt": "f64",
                       "vec": False, "b": G.cast(G.rs.randn(1000, 2), "f64"), "xl": G.cast(G.rs.randn(1, 1000), "f64"), "gmres_iters": 1000})
-    # n = 1001: the model's selection with shape / dtype (no solve for a dense operator: GMRES / CG at default options)
-    sel = [{"path": "auto-large-side", "tree": {"k": "dense", "dt": "f64", "n": 1001, "psd": psd, "wrap": None}, "alg": "Auto"} for psd in (True, False)]
-    ans = run_driver_safe([{"id": i, "call": "skel", "alg": c["alg"], "op": F.expr(c["tree"])} for i, c in enumerate(cases + sel)], nproc=1)
+    # n = 1001: the model's selection with shape / dtype AND the options of the solver object Auto(**d) hands over to
+    sel_opts = {"tol": rng.choice([1e-9, 1e-3, 3e-7]), "max_iters": rng.choice([7, 400, 1234])}
+    sel = [{"path": "auto-large-side", "tree": {"k": "dense", "dt": "f64", "n": 1001, "psd": psd, "wrap": None}, "alg": "Auto",
+            "opts": sel_opts if j % 2 == 0 else {"tol": sel_opts["tol"]}} for j, psd in enumerate((True, False, False, True))]
+    ans = run_driver_safe([{"id": i, "call": "skel", "alg": c["alg"], "op": F.expr(c["tree"]),
+                            "opts": opts_json(c.get("opts", F.alg_opts(c["alg"], c.get("gmres_iters", 0))))} for i, c in enumerate(cases + sel)], nproc=1)
     for i, c in enumerate(cases):
         try:
-            st, det, meas = F.run_case(c, ans.get(i), rskel, err_class)
+            st, det, meas = F.run_case(c, ans.get(i), rskel, err_class, solver_check)
         except Exception as ex:  # noqa: BLE001
             st, det, meas = "not-compared", f"harness error {type(ex).__name__}: {str(ex)[:200]}", {}
         stats["auto-evaluations"] += 1
@@ -729,18 +810,27 @@ def large_side_solves(ctx, stats):
         A = cola.ops.Dense(np.zeros((1001, 1001)) + np.eye(1001))
         A = cola.PSD(A) if c["tree"]["psd"] else A
         try:
-            B = cola.linalg.inv(A, Auto())
+            B = cola.linalg.inv(A, Auto(**c["opts"]))
             got = {"shape": [int(B.shape[0]), int(B.shape[1])], "dtype": build.dtname(B.dtype), "skel": rskel(B)}
+            real_solvers = rsolvers(B)
         except Exception as ex:  # noqa: BLE001
-            got = {"err": err_class(ex)}
+            got, real_solvers = {"err": err_class(ex)}, []
         code = a["code"]
         want = {"err": code["err"]} if "err" in code else {"shape": [code["rows"], code["cols"]], "dtype": code["dtype"], "skel": code["skel"]}
+        sd = None if "err" in code or "err" in got else solvers_differ(real_solvers, code.get("solvers", []))
         stats["auto-evaluations"] += 1
-        out.append({"n": 1001, "psd": c["tree"]["psd"], "call": "Auto", "real": got.get("skel", got), "model": want.get("skel", want),
-                    "status": "ok" if got == want else "differs"})
+        out.append({"n": 1001, "psd": c["tree"]["psd"], "call": f"Auto(**{c['opts']})", "real": got.get("skel", got), "model": want.get("skel", want),
+                    "real_solvers": real_solvers, "model_solvers": code.get("solvers"),
+                    "status": "ok" if got == want and sd is None else "differs"})
         if got != want:
-            common.violation(ctx, {"auto_switch": {"n": 1001, "psd": c["tree"]["psd"], "real": got, "rule_model": want},
-                                   "why": "inv(Dense 1001 x 1001, Auto()) returns another operator than the rule model selects"})
+            common.violation(ctx, {"auto_switch": {"n": 1001, "psd": c["tree"]["psd"], "opts": c["opts"], "real": got, "rule_model": want},
+                                   "why": "inv(Dense 1001 x 1001, Auto(**opts)) returns another operator than the rule model selects"})
+        elif sd is not None:
+            common.violation(ctx, {"auto_options": {"n": 1001, "psd": c["tree"]["psd"], "call": f"cola.linalg.inv(A, Auto(**{c['opts']})) with A = "
+                                                    + ("PSD(" if c["tree"]["psd"] else "(") + "Dense(eye(1001)))", "real_solvers": real_solvers,
+                                                    "model_solvers": code.get("solvers")},
+                                   "why": "the solver object Auto hands over to does not carry the caller's options (theorem C06_auto_forwards_options "
+                                          "of the model): " + sd})
     # n = 1001, matmul-defined PSD operator: CG with the tolerance given to Auto
     tol, iters = 1e-9, 400
     for rep in range(2):
@@ -786,6 +876,7 @@ def auto_stream(ctx, stats):
                     A = cola.PSD(A)
                 try:
                     B = cola.linalg.inv(A) if how == "omitted" else cola.linalg.inv(A, Auto(tol=1e-3, max_iters=7))
+                    rs = rsolvers(B)
                     name = type(B).__name__.split("[")[0]
                     if name == "IterativeOperatorWInfo":
                         sel = type(B.alg).__name__
@@ -798,21 +889,32 @@ def auto_stream(ctx, stats):
                     else:
                         sel = name
                 except Exception as ex:  # noqa: BLE001
-                    sel = "raised " + type(ex).__name__
-                cases.append({"id": len(cases), "call": "auto", "psd": psd, "rows": n, "cols": n})
-                reals.append((n, psd, how, sel))
+                    sel, rs = "raised " + type(ex).__name__, None
+                cases.append({"id": len(cases), "call": "auto", "psd": psd, "rows": n, "cols": n,
+                              "opts": opts_json({} if how == "omitted" else {"tol": 1e-3, "max_iters": 7})})
+                reals.append((n, psd, how, sel, rs))
     ans = run_driver_safe(cases, nproc=1)
     table = []
-    for c, (n, psd, how, sel) in zip(cases, reals):
+    for c, (n, psd, how, sel, rs) in zip(cases, reals):
         want = ans.get(c["id"], {}).get("alg")
+        wsolver = ans.get(c["id"], {}).get("solver")
         stats["auto-evaluations"] += 1
-        table.append({"n": n, "psd": psd, "call": how, "real": sel, "model": want})
+        table.append({"n": n, "psd": psd, "call": how, "real": sel, "model": want, "real_solvers": rs, "model_solver": wsolver})
         if want is None:
             stats["auto-not-compared"] += 1
             continue
         if sel != want:
             common.violation(ctx, {"auto_switch": {"n": n, "psd": psd, "call": how, "real_selected": sel, "decision_table": want},
                                    "why": "inv(A, Auto) selected another algorithm than the documented decision table"})
+        elif rs is not None and wsolver is not None:
+            # the options of the solver object: the model's autoChoice d (CG(**d) / GMRES(**d)); direct algorithms have none
+            sd = solvers_differ(rs, [wsolver] if wsolver[1] is not None else [])
+            if sd is not None:
+                common.violation(ctx, {"auto_options": {"n": n, "psd": psd, "call": "cola.linalg.inv(A)" if how == "omitted" else
+                                                        "cola.linalg.inv(A, Auto(tol=1e-3, max_iters=7))",
+                                                        "operator": "LinearOperator(float64, (n, n), matmat=lambda X: 2.0 * X)" + (" wrapped in cola.PSD" if psd else ""),
+                                                        "real_solvers": rs, "model_solver": wsolver},
+                                       "why": "the solver object Auto hands over to does not carry the caller's options: " + sd})
     return table
 
 
@@ -820,7 +922,7 @@ def auto_stream(ctx, stats):
 def evaluate(cases):
     for i, c in enumerate(cases):
         c["id"] = i
-    ans = run_driver_safe([strip(c) | {"id": c["id"]} for c in cases])
+    ans = run_driver_safe([to_driver(c, c["id"]) for c in cases])
     out = []
     for c in cases:
         a = ans.get(c["id"], {"error": "no answer from the driver"})
@@ -922,13 +1024,13 @@ def run(ctx):
     else:
         ncases = 600 if not ctx.thorough else 9000
         cases = [G.case() for _ in range(ncases)]
-    auto_table = auto_stream(ctx, stats) if not ctx.replay or "auto_switch" in rp else []
+    auto_table = auto_stream(ctx, stats) if not ctx.replay or "auto_switch" in rp or "auto_options" in rp else []
     float_hist = collections.Counter()
     not_compared, nc_samples = collections.Counter(), []
     float_cov, large_table = {}, []
     if not ctx.replay or "float_case" in rp:
         float_cov = float_stream(ctx, stats, float_hist, replay_case=rp.get("float_case"))
-    if not ctx.replay or any(k in rp for k in ("auto_small_side", "auto_large_side", "auto_switch")):
+    if not ctx.replay or any(k in rp for k in ("auto_small_side", "auto_large_side", "auto_switch", "auto_options")):
         large_table = large_side_solves(ctx, stats)
 
     for i in range(0, len(cases), 600):
@@ -1023,13 +1125,30 @@ def run(ctx):
            "compare": "kind tree, shape, dtype exactly; values exactly on division-only paths, rel. tol. 1e-9 (LAPACK, double) / 2e-3 (single) / "
                       "1e-6 (CG, GMRES double) / 5e-3 (single) elsewhere; residual of the returned solution; float stream: " + float_cov.get("claim", "not run"),
            "notes": ctx.notes[:10],
-           "trusted_base_extra": ["the exact factorisation / solver instances of DriverC06.lean (their contracts are the hypotheses of the theorems and are re-checked by "
-                                  "multiplication on every case: inv_ok)"]}
+           "trusted_base_extra": ["DriverC06.lean runs Inv.gExtWith solveExact: for its LU / Cholesky the contracts are PROVED (Inv.luContract_gExt, "
+                                  "Inv.cholContract_gExt, Lemmas/InvInstances.lean) under the decidable side conditions the driver evaluates per LAPACK node "
+                                  "(contracts_ok, compared with inv_ok on every case); the Gauss-Jordan solver solveExact carries no proof (its contract is a "
+                                  "hypothesis; the driver re-checks the RESULT by multiplication: inv_ok); luExact / cholExact are a second implementation "
+                                  "compared with the first on every LAPACK node (lapack_agree)"]}
     common.write_evidence(ctx, gate, cov, assumptions=[
-        "the contracts of the theorems assume EXACT factorisations (L L^H = A, P L U = A) and EXACT solves (A x = b) by the external routines; "
-        "for CG the contract is what C12 proves at the grade (C12_optimal_inputs: Krylov-optimal iterate; it is the solution once x* - x0 lies in the "
-        "Krylov space), for GMRES what C13 proves (C13_exact_at_grade_input, C13_exact_at_dim: zero residual once the Krylov space is exhausted); "
-        "before the grade / under rounding only the residual claims of the float-side stream hold",
+        "CONTRACT PARAMETERS of the theorems (Inv.Ext: recip, chol, lu, solve), each an assumed EXACT behaviour of an external routine at the nodes that "
+        "fall to an algorithm: `LUContract` (xnp.lu / LAPACK getrf: P L U = A.to_dense(), p a permutation, triangular factors, invertible diagonals), "
+        "`CholContract` (xnp.cholesky / potrf: L L^H = A.to_dense(), L lower triangular, invertible diagonal), `SolveContract` (CG / GMRES object: "
+        "A alg(A, X) = X for every X), the reciprocal law `s * recip s = 1` (`DiagUnit`, ScalarMul / Diagonal / Triangular data) and `RecipStar`.  "
+        "Each has a Lean instance on a concrete non-diagonal input over Q[i] through which the main theorems are applied (C06_lu_instance: exact LU "
+        "with a row swap of a 3x3; C06_chol_instance: exact Cholesky of a complex Hermitian 2x2; C06_solve_contract_instance), but LAPACK's / "
+        "cola's own routines are NOT proved to satisfy them: that rests on the tolerance comparisons of this check",
+        "`SolveContract` per call is DISCHARGED for the solver models of C12 / C13 run to the grade of the right-hand side (C06_solve_cg_at_grade, "
+        "C06_solve_gmres_at_grade / _at_breakdown, instantiated by C06_cg_at_grade_witness, C06_gmres_at_grade_witness, "
+        "C06_gmres_at_breakdown_witness): remaining hypotheses `hpd`, `A_coercive`, `hb`, `tol_admissible`, `gradeReached` (CG); `resNonzero`, "
+        "`noEarlierBreakdown`, `gradeReached` / `exactBreakdown`, `maskExact`, `solverSound`, `injective` (GMRES); one column, x0 = 0, no "
+        "preconditioner, solver node at the root; before the grade / under rounding only the residual claims of the float-side stream hold",
+        "hypotheses on the input: `InvHyp` (invertible data along the selected rules), `Declared` (the asserted declarations are present), `Op.Good` "
+        "(wf, dupSlice = false [clause sliced-repeated-index of C01], HermOK [C05]), `A.RealTyped`, `ScalarsOK` (input-level exclusion of the recorded "
+        "clause scalar-times-annotated), `UnitaryHolds` for a plain Algorithm object",
+        "the algorithm objects of the model carry `tol` / `max_iters` only (Alg.cg o, Alg.gmres o, Alg.auto d; C06_solver_options, "
+        "C06_auto_forwards_options: the solver objects inv builds hold exactly the caller's values - compared with the real solver objects on every "
+        "case, `solvers`); `pbar`, `x0`, `P` and unknown keywords of Auto (TypeError in CG(**d)) are not modelled",
         "the residual bounds of the float-side stream use textbook backward-error constants (Higham, Accuracy and Stability of Numerical Algorithms) "
         "for LAPACK's triangular solves / getrf / potrf; the GMRES constant is heuristic",
         "exact field arithmetic in the theorems; rounding is covered only by the tolerances of the correspondence stream on well-conditioned inputs"])
